@@ -1137,6 +1137,71 @@ func c09r27(c *Ctx, r *Report) {
 	r.floor("action lists dispatched by Terminal.Loop", n, 5)
 }
 
+// c16r22: an action argument in brackets ends where maskActionContents found its closing delimiter — followed by
+// `+`, `,` or the end. In --bind a `,` starts the next binding, so the closing delimiter is always the last
+// character of an action spec there. A POST body (and the output of transform) is a single action list: a `,` and
+// text behind the closing delimiter is garbage, and parseActionList — which cuts the argument as
+// spec[offset+1 : len(spec)-1] — has to notice it from the masked copy (D109: it did not: POST
+// `change-query(x),y` was answered 200 and set the query to `x),`; with execute(...) the mangled text went to the shell).
+func c16r22(c *Ctx, r *Report) {
+	l := c.L
+	r.rule("C16-R22", "C (the closing delimiter is the last character of the spec)", "P1",
+		"in parseActionList, the slice expression that cuts a bracketed argument up to len(spec)-1 is control dependent on a test of the corresponding element of the masked copy (strings.Split(masked, \"+\"))",
+		"a malformed action list that --bind rejects is accepted from the listener (or from transform) and something other than what was written is executed")
+	fn := l.Fn("fzf", "parseActionList")
+	if fn == nil || len(fn.Params) < 1 {
+		r.unest("anchors", token.NoPos, nil, "anchor parseActionList", "cannot resolve")
+		return
+	}
+	masked := fn.Params[0]
+	// the split of the masked copy
+	var split ssa.Value
+	eachInstr(fn, func(in ssa.Instruction) {
+		if call, ok := in.(*ssa.Call); ok && calleeName(call.Common()) == "strings.Split" && call.Call.Args[0] == ssa.Value(masked) {
+			split = call
+		}
+	})
+	if split == nil {
+		r.unest(relName(fn)+":split of the masked copy", fn.Pos(), fn, "strings.Split(masked, \"+\")", "not found")
+		return
+	}
+	cc := cdCache{}
+	n := 0
+	eachInstr(fn, func(in ssa.Instruction) {
+		sl, ok := in.(*ssa.Slice)
+		if !ok || sl.High == nil || sl.Low == nil {
+			return
+		}
+		if bt, ok := sl.X.Type().Underlying().(*types.Basic); !ok || bt.Info()&types.IsString == 0 {
+			return
+		}
+		// High = len(x) - 1, Low = something + 1
+		hb, ok := sl.High.(*ssa.BinOp)
+		if !ok || hb.Op != token.SUB || !isConstInt(hb.Y, 1) {
+			return
+		}
+		lb, ok := sl.Low.(*ssa.BinOp)
+		if !ok || lb.Op != token.ADD || !isConstInt(lb.Y, 1) {
+			return
+		}
+		n++
+		good := false
+		for cond := range cc.of(sl) {
+			for v := range backwardSlice(cond, func(*ssa.CallCommon) bool { return true }, nil) {
+				if ia, ok := v.(*ssa.IndexAddr); ok && ia.X == split {
+					good = true
+				}
+				if ix, ok := v.(*ssa.Index); ok && ix.X == split {
+					good = true
+				}
+			}
+		}
+		r.check(good, fmt.Sprintf("%s:bracketed argument #%d ends at the end of the spec", relName(fn), n), sl.Pos(), fn,
+			"the masked copy has been looked at", "the argument is cut at len(spec)-1 without checking that the closing delimiter is the last character")
+	})
+	r.floor("bracketed arguments cut in parseActionList", n, 1)
+}
+
 func round11(c *Ctx, r *Report, prop string) {
 	switch prop {
 	case "C01":
@@ -1177,8 +1242,11 @@ func round11(c *Ctx, r *Report, prop string) {
 		c15r28(c, r)
 		c15r29(c, r)
 		c15r30(c, r)
+	case "C16":
+		c16r22(c, r)
 	case "C17":
 		c17r30(c, r)
+		c16r22(c, r) // an argument vector with trailing garbage behind an action argument is rejected
 	case "C19":
 		c19r18(c, r)
 		c19r19(c, r)
